@@ -19,10 +19,10 @@ def lines_upto(symbols, maxlen):
 
 def cfgs(tier, seed):
     o = alphabet.ordinary(seed, 3)
-    big = 10 if tier == 'thorough' else 8
-    rel = 7 if tier == 'thorough' else 6
+    big = 11 if tier == 'thorough' else 8
+    rel = 8 if tier == 'thorough' else 6
     pub = 7 if tier == 'thorough' else 6
-    multi = 9 if tier == 'thorough' else 7
+    multi = 10 if tier == 'thorough' else 7
     shards = []
     for dlm in [',', ';', '\t', ' ', '|']:
         syms = ['"', dlm, ' ', o[0]] if dlm != ' ' else ['"', ' ', o[0], o[1]]
